@@ -27,6 +27,7 @@ import (
 	"go/types"
 	"math"
 	"math/big"
+	"strconv"
 	"strings"
 	"unicode"
 
@@ -411,6 +412,13 @@ func (fr *frame) eval1(v ssa.Value) Val {
 		it := fr.eval(x.Iter)
 		if x.IsString && it.K == KStr && it.S == "" {
 			return Val{K: KTuple, Elems: []Val{boolVal(false), top, top}}
+		}
+		if rg, isRange := x.Iter.(*ssa.Range); isRange && !x.IsString && it.K == KPtr {
+			if _, isMap := rg.X.Type().Underlying().(*types.Map); isMap {
+				if n, ok := fr.in.PathBind["len("+it.S+")"]; ok && n.K == KInt && n.I.Sign() == 0 {
+					return Val{K: KTuple, Elems: []Val{boolVal(false), top, top}}
+				}
+			}
 		}
 		if _, isRange := x.Iter.(*ssa.Range); isRange && fr.pathMode && x.IsString && it.K == KStr && !it.Dep {
 			return fr.nextRune(x, it.S)
@@ -1141,6 +1149,120 @@ func (fr *frame) pureCall(fn *ssa.Function, args []Val) (Val, bool) {
 	case "strings.ToUpper":
 		if allKnown && args[0].K == KStr {
 			return strVal(strings.ToUpper(args[0].S)), true
+		}
+	case "strings.ToLower":
+		if allKnown && args[0].K == KStr {
+			return strVal(strings.ToLower(args[0].S)), true
+		}
+	case "strings.HasSuffix", "strings.Contains", "strings.ContainsAny", "strings.EqualFold":
+		if allKnown && args[0].K == KStr && args[1].K == KStr {
+			var b bool
+			switch fn.Name() {
+			case "HasSuffix":
+				b = strings.HasSuffix(args[0].S, args[1].S)
+			case "Contains":
+				b = strings.Contains(args[0].S, args[1].S)
+			case "ContainsAny":
+				b = strings.ContainsAny(args[0].S, args[1].S)
+			case "EqualFold":
+				b = strings.EqualFold(args[0].S, args[1].S)
+			}
+			return Val{K: KBool, B: b, Dep: dep}, true
+		}
+	case "strings.Index", "strings.LastIndex", "strings.IndexAny", "strings.Count":
+		if allKnown && args[0].K == KStr && args[1].K == KStr {
+			var n int
+			switch fn.Name() {
+			case "Index":
+				n = strings.Index(args[0].S, args[1].S)
+			case "LastIndex":
+				n = strings.LastIndex(args[0].S, args[1].S)
+			case "IndexAny":
+				n = strings.IndexAny(args[0].S, args[1].S)
+			case "Count":
+				n = strings.Count(args[0].S, args[1].S)
+			}
+			return Val{K: KInt, I: big.NewInt(int64(n)), Dep: dep}, true
+		}
+	case "strings.IndexByte", "strings.IndexRune", "strings.LastIndexByte":
+		if allKnown && args[0].K == KStr && args[1].K == KInt && args[1].I.IsInt64() {
+			var n int
+			switch fn.Name() {
+			case "IndexByte":
+				n = strings.IndexByte(args[0].S, byte(args[1].I.Int64()))
+			case "LastIndexByte":
+				n = strings.LastIndexByte(args[0].S, byte(args[1].I.Int64()))
+			default:
+				n = strings.IndexRune(args[0].S, rune(args[1].I.Int64()))
+			}
+			return Val{K: KInt, I: big.NewInt(int64(n)), Dep: dep}, true
+		}
+	case "strings.TrimSpace":
+		if allKnown && args[0].K == KStr {
+			return Val{K: KStr, S: strings.TrimSpace(args[0].S), Dep: dep}, true
+		}
+	case "strings.TrimRight", "strings.TrimLeft", "strings.Trim", "strings.TrimPrefix", "strings.TrimSuffix":
+		if allKnown && args[0].K == KStr && args[1].K == KStr {
+			var t string
+			switch fn.Name() {
+			case "TrimRight":
+				t = strings.TrimRight(args[0].S, args[1].S)
+			case "TrimLeft":
+				t = strings.TrimLeft(args[0].S, args[1].S)
+			case "Trim":
+				t = strings.Trim(args[0].S, args[1].S)
+			case "TrimPrefix":
+				t = strings.TrimPrefix(args[0].S, args[1].S)
+			case "TrimSuffix":
+				t = strings.TrimSuffix(args[0].S, args[1].S)
+			}
+			return Val{K: KStr, S: t, Dep: dep}, true
+		}
+	case "strings.Repeat":
+		if allKnown && args[0].K == KStr && args[1].K == KInt && args[1].I.IsInt64() && args[1].I.Int64() >= 0 && args[1].I.Int64()*int64(len(args[0].S)) <= 4096 {
+			return Val{K: KStr, S: strings.Repeat(args[0].S, int(args[1].I.Int64())), Dep: dep}, true
+		}
+	case "strings.Join":
+		if args[1].K == KStr {
+			if elems, ok := fr.sliceElems(args[0], types.Typ[types.String]); ok {
+				parts := make([]string, len(elems))
+				d := dep
+				for i, e := range elems {
+					if e.K != KStr {
+						return topDep(dep || e.Dep), true
+					}
+					parts[i] = e.S
+					d = d || e.Dep
+				}
+				return Val{K: KStr, S: strings.Join(parts, args[1].S), Dep: d}, true
+			}
+		}
+	case "strconv.Itoa":
+		if allKnown && args[0].K == KInt {
+			return Val{K: KStr, S: args[0].I.String(), Dep: dep}, true
+		}
+	case "strconv.FormatInt", "strconv.FormatUint":
+		if allKnown && args[0].K == KInt && args[1].K == KInt && args[1].I.IsInt64() && args[1].I.Int64() >= 2 && args[1].I.Int64() <= 36 {
+			return Val{K: KStr, S: args[0].I.Text(int(args[1].I.Int64())), Dep: dep}, true
+		}
+	case "strconv.FormatBool":
+		if allKnown && args[0].K == KBool {
+			return Val{K: KStr, S: strconv.FormatBool(args[0].B), Dep: dep}, true
+		}
+	case "strconv.FormatFloat":
+		if allKnown && args[0].K == KFloat && args[1].K == KInt && args[2].K == KInt && args[3].K == KInt && args[1].I.IsInt64() && args[2].I.IsInt64() && args[3].I.IsInt64() {
+			bits := int(args[3].I.Int64())
+			if bits == 32 || bits == 64 {
+				return Val{K: KStr, S: strconv.FormatFloat(args[0].F, byte(args[1].I.Int64()), int(args[2].I.Int64()), bits), Dep: dep}, true
+			}
+		}
+	case "strconv.Quote":
+		if allKnown && args[0].K == KStr {
+			return Val{K: KStr, S: strconv.Quote(args[0].S), Dep: dep}, true
+		}
+	case "fmt.Sprint", "fmt.Sprintln":
+		if v, ok := fr.sprint(args[0], fn.Name() == "Sprintln"); ok {
+			return v, true
 		}
 	default:
 		return Val{}, false
